@@ -850,7 +850,7 @@ def run(ctx):
             ctx.obligation_broken('proof:generated schedule = Model/Cumops.v (gen_count_eq, gen_strides_eq, gen_cumops_eq, gen_cumprod_eq ...)', out[-2500:])
         else:
             ctx.notes.append('translator tie: gen_count / gen_strides / gen_cumops and the four wrappers regenerated from the working tree and proved equal to '
-                             'Model/Cumops.v for every length (%d lemmas, closed under the global context); %s' % (N_LEMMAS, '; '.join(gen_notes)))
+                             'Model/Cumops.v for every length, with the property theorems restated for them (gen_cumops_is_fold, gen_cumprod_left, gen_cumprod_right; %d statements, closed under the global context); %s' % (N_LEMMAS, '; '.join(gen_notes)))
     for name, (rc, out) in sorted(res.items()):
         ev = parse_evals(out)
         nexp = 2 if name != 'lie' else 1
